@@ -4,6 +4,7 @@ enumeration for the channel (C01-C03).  Tapes are generated here and executed by
 front-end in batches."""
 import json
 import os
+import time
 import re
 import struct
 import subprocess
@@ -30,6 +31,8 @@ def run_batches(exe, tapes, scratch, env_base, engine, nworkers, tag):
         todo = list(chunks[j])
         res_stats, res_c = [], []
         part = 0
+        hangs = 0
+        stuck_s = float(os.environ.get("VERIF_STUCK_S", 90))
         while todo:
             out = os.path.join(scratch, tag, "o%d_%d" % (j, part))
             part += 1
@@ -38,9 +41,23 @@ def run_batches(exe, tapes, scratch, env_base, engine, nworkers, tag):
             env["VH_OUT"] = out
             env["VH_SCRATCH"] = os.path.join(out, "s")
             from vcheck import _die_with_parent
-            p = subprocess.run([exe, "--stats", "--engine", engine] + todo, env=env, stdout=subprocess.PIPE, stderr=subprocess.STDOUT, cwd=out,
-                               preexec_fn=_die_with_parent)
-            txt = p.stdout.decode("utf-8", "replace")
+            # Watchdog (as for the rapidcheck workers): the process prints one line per finished tape; when its
+            # output does not grow for stuck_s seconds it sits in a loop inside the current tape and is killed.
+            logp = os.path.join(out, "log")
+            with open(logp, "wb") as logf:
+                p = subprocess.Popen([exe, "--stats", "--engine", engine] + todo, env=env, stdout=logf, stderr=subprocess.STDOUT, cwd=out,
+                                     preexec_fn=_die_with_parent)
+                size, since, hung = -1, time.time(), False
+                while p.poll() is None:
+                    time.sleep(0.5)
+                    sz = os.path.getsize(logp)
+                    if sz != size:
+                        size, since = sz, time.time()
+                    elif time.time() - since > stuck_s:
+                        hung = True
+                        p.kill()
+                        p.wait()
+            txt = open(logp, "rb").read().decode("utf-8", "replace")
             done = re.findall(r"^REPLAY (\S+) verdict=(\d) .*? sig=(.*?) msg=(.*)$", txt, re.M)
             for path, verdict, sig, msg in done:
                 outputs[path] = (int(verdict), sig, msg)
@@ -54,8 +71,14 @@ def run_batches(exe, tapes, scratch, env_base, engine, nworkers, tag):
             rest = [t for t in todo if t not in finished]
             if p.returncode in (0, 1) or not rest:
                 break
-            # the process died inside rest[0]
-            res_c.append((engine + "-crash:" + os.path.basename(rest[0]), open(rest[0], "rb").read(), "crash:" + _crash(txt), {"log": txt[-2000:]}))
+            # the process died (or was killed by the watchdog) inside rest[0]
+            if hung:
+                res_c.append((engine + "-stuck:" + os.path.basename(rest[0]), open(rest[0], "rb").read(), "hang:no-progress", {"log": txt[-2000:]}))
+                hangs += 1
+                if hangs >= 2:
+                    break  # every further tape of this batch may cost another stuck_s: two hangs are enough to report
+            else:
+                res_c.append((engine + "-crash:" + os.path.basename(rest[0]), open(rest[0], "rb").read(), "crash:" + _crash(txt), {"log": txt[-2000:]}))
             todo = rest[1:]
         return res_stats, res_c
 
